@@ -673,7 +673,9 @@ func (e sliceErr) Error() string { return "slice error" }
 var scriptedPanicN uint32
 
 func scriptedPanic() {
-	switch atomic.AddUint32(&scriptedPanicN, 1) % 5 {
+	// (two in a row of each uncomparable kind: code that compares a panic value with the previous
+	// one must survive that too)
+	switch []int{0, 1, 1, 2, 3, 3, 4}[atomic.AddUint32(&scriptedPanicN, 1)%7] {
 	case 0:
 		panic("scripted handler panic")
 	case 1:
